@@ -207,6 +207,10 @@ class Concatenate(ArrayExpr):
 
         # Normalize the axis slice
         concat_dim_size = sum(a.shape[axis] for a in arrays)
+        if np.isnan(concat_dim_size):
+            # unknown sizes along the concatenation axis: the inputs cannot be
+            # trimmed, and slice.indices() needs the length
+            return None
         if isinstance(axis_slice, slice):
             start, stop, step = axis_slice.indices(concat_dim_size)
             if step != 1:
